@@ -141,6 +141,11 @@ def PRBS(
         23: [23, 18],
         31: [31, 28],
     }
+    if order not in taps.keys():
+        raise ValueError(
+            "The parameter `order` must be one of the following values (7, 9, 11, 15, 20, 23, 31)."
+        )
+
     seed = seed % (2**order) if seed is not None else (1 << order) - 1
     if seed == 0:
         seed = 1
@@ -158,11 +163,6 @@ def PRBS(
             )
     else:
         len = 2**order - 1
-
-    if order not in taps.keys():
-        raise ValueError(
-            "The parameter `order` must be one of the following values (7, 9, 11, 15, 20, 23, 31)."
-        )
 
     prbs = np.empty((len,), dtype=np.uint8)  # Preallocate memory for the PRBS
     lfsr = seed  # initial state of the LFSR
